@@ -152,7 +152,7 @@ PROPS = {
         "assumptions": ["each storage operation is atomic in the protocol model; pre-emption between a storage operation and its return to the caller is explored on the real code (this is how K3 was reproduced; fixed by b5f126b)"],
     },
     "C14": {
-        "coq_deps": ["InsertFacts", "InsertRefine"],
+        "coq_deps": ["InsertFacts", "InsertRefine", "ParallelIns"],
         "steps": [{"sub": "c14", "quick": [0], "thorough": [1], "timeout": 3000},
                   {"sub": "dirs", "quick": [0], "thorough": [0], "featureset": "B"},
                   {"sub": "c14", "quick": [0], "thorough": [0], "featureset": "B", "timeout": 3000}],
